@@ -108,6 +108,9 @@ class Ctx(Acc):
 
     def layer(self, name, **info):
         """record a completed (or capped) layer with its bound"""
+        now = time.time()
+        info["wall_s"] = round(now - getattr(self, "_last_layer_t", self.t0), 1)
+        self._last_layer_t = now
         self.layers[name] = info
         if info.get("exhaustive") is False:
             self.exhaustive = False
